@@ -174,11 +174,35 @@ def _cvc5(smt2, timeout_ms):
 
 
 class Result:
-    __slots__ = ("name", "status", "backend", "time", "model", "reason", "ob")
+    __slots__ = ("name", "status", "backend", "time", "model", "reason", "ob", "stage")
 
-    def __init__(self, name, status, backend, time_, model=None, reason="", ob=None):
+    def __init__(self, name, status, backend, time_, model=None, reason="", ob=None, stage=""):
         self.name, self.status, self.backend, self.time, self.model, self.reason, self.ob = \
             name, status, backend, time_, model, reason, ob
+        self.stage = stage
+
+
+HINTS_FILE = os.path.join(os.path.dirname(os.path.dirname(os.path.abspath(__file__))), "proof_hints.json")
+_HINTS = None
+
+
+def hint_key(ob):
+    import hashlib
+    base = re.sub(r":L\d+#\d+", "", ob.name) + "|" + (ob.note or "")
+    return hashlib.sha1(base.encode()).hexdigest()[:16]
+
+
+def load_hints():
+    """proof_hints.json: which stage of the pipeline proved an obligation last time (pure search-order advice: a stage is
+    tried first, every verdict is still produced by the solver on the query generated from the current source)"""
+    global _HINTS
+    if _HINTS is None:
+        try:
+            import json
+            _HINTS = json.load(open(HINTS_FILE))
+        except Exception:
+            _HINTS = {}
+    return _HINTS
 
 
 class SerialOb:
@@ -337,37 +361,67 @@ def _solve_instantiated(smt2, timeout_ms):
         return "unknown"
 
 
-def _pipeline(ob, timeout_ms, tac, retry_ms, use_cvc5):
+def _try_stage(ob, stage, timeout_ms, tac):
+    """run one named stage; True iff it proves the obligation"""
+    try:
+        if stage == "qf" and ob.smt2_qf is not None:
+            return _solve(ob.smt2_qf, timeout_ms, tac, False)[0] == "unsat"
+        if stage.startswith("slice"):
+            k, seed = (stage[5:].split(".") + ["0"])[:2]
+            k = int(k)
+            if k < len(ob.slices):
+                return _solve(ob.slices[k], min(timeout_ms, 8000), tac, False, int(seed))[0] == "unsat"
+        if stage == "inst":
+            return _solve_instantiated(ob.smt2, min(timeout_ms, 20000)) == "unsat"
+        if stage.startswith("full"):
+            seed = int(stage[4:] or 0)
+            return _solve(ob.smt2, timeout_ms, tac, False, seed)[0] == "unsat"
+    except Exception:
+        pass
+    return False
+
+
+def _pipeline(ob, timeout_ms, tac, retry_ms, use_cvc5, hint=None):
     """one obligation, start to finish, inside a worker:  quantifier-free hypotheses -> relevance slices -> all
     hypotheses -> cvc5 -> retry.  `unsat` on a subset of the hypotheses is a proof; `sat` only counts on the full set."""
+    t0 = time.time()
+    if hint and _try_stage(ob, hint, timeout_ms, tac):
+        return "proved", "z3+inst" if hint == "inst" else "z3", time.time() - t0, None, "", hint
+    r = _pipeline0(ob, timeout_ms, tac, retry_ms, use_cvc5)
+    return r
+
+
+def _pipeline0(ob, timeout_ms, tac, retry_ms, use_cvc5):
     t0 = time.time()
     model1 = None
     if ob.smt2_qf is not None:
         r, model1, _, _ = _solve(ob.smt2_qf, timeout_ms, tac, True)
         if r == "unsat":
-            return "proved", "z3", time.time() - t0, None, ""
+            return "proved", "z3", time.time() - t0, None, "", "qf"
     for k, sm in enumerate(ob.slices):
         for seed in (0, 1):
             r, _, _, _ = _solve(sm, min(timeout_ms, 4000), tac, False, seed)
             if r == "unsat":
-                return "proved", "z3", time.time() - t0, None, ""
+                return "proved", "z3", time.time() - t0, None, "", "slice%d.%d" % (k, seed)
             if r == "sat":
                 break
         if k == 0 and os.environ.get("PYVC_NO_INST") != "1":
             if _solve_instantiated(ob.smt2, min(timeout_ms, 15000)) == "unsat":
-                return "proved", "z3+inst", time.time() - t0, None, ""
+                return "proved", "z3+inst", time.time() - t0, None, "", "inst"
     if not ob.slices and ob.smt2_qf is not None and os.environ.get("PYVC_NO_INST") != "1":
         if _solve_instantiated(ob.smt2, min(timeout_ms, 15000)) == "unsat":
-            return "proved", "z3+inst", time.time() - t0, None, ""
+            return "proved", "z3+inst", time.time() - t0, None, "", "inst"
     # quantifier instantiation is sensitive to the search order: a small portfolio of seeds with short budgets is more
     # robust than one long run (a proof, when found, is found in milliseconds).  With a candidate counter-model from the
     # quantifier-free query the full query gets a short budget.
     budget = min(timeout_ms, 10000) if model1 is not None else timeout_ms
     plan = [(0, budget / 4.0), (1, budget / 4.0), (2, budget / 4.0), (3, budget / 4.0)] if (ob.smt2_qf is not None or ob.slices) else [(0, budget)]
     r, model, reason = "unknown", None, ""
+    stage = ""
     for seed, tmo in plan:
         r, model, _, reason = _solve(ob.smt2, max(tmo, 1000), tac, True, seed)
         if r in ("sat", "unsat"):
+            stage = "full%d" % seed
             break
     if model is None:
         model = model1
@@ -392,7 +446,7 @@ def _pipeline(ob, timeout_ms, tac, retry_ms, use_cvc5):
     if status == "unknown" and model1 is not None:
         # satisfiable without the quantified axioms, undecided with them: only a candidate counter-model - still undecided
         reason = "candidate model (quantified axioms not decided): " + str(reason)
-    return status, backend, time.time() - t0, model, reason
+    return status, backend, time.time() - t0, model, reason, stage if status == "proved" else ""
 
 
 def _retry(ob, timeout_ms, seed):
@@ -404,18 +458,54 @@ def _retry(ob, timeout_ms, seed):
     return r, time.time() - t0
 
 
+CACHE_DIR = os.path.join(os.path.dirname(os.path.dirname(os.path.abspath(__file__))), ".work", "proved")
+
+
+def _cache_key(ob):
+    import hashlib
+    return hashlib.sha256(ob.smt2.encode()).hexdigest()
+
+
+def _cache_has(key):
+    return os.environ.get("PYVC_NO_CACHE") != "1" and os.path.exists(os.path.join(CACHE_DIR, key[:2], key))
+
+
+def _cache_put(key):
+    if os.environ.get("PYVC_NO_CACHE") == "1":
+        return
+    try:
+        d = os.path.join(CACHE_DIR, key[:2])
+        os.makedirs(d, exist_ok=True)
+        open(os.path.join(d, key), "w").close()
+    except OSError:
+        pass
+
+
 def discharge(obligations, timeout_ms=20000, tactic=None, retry_ms=None, use_cvc5=True, per_ob_tactic=None):
-    """obligations: list of symexec.Obligation.  Returns list of Result (status: proved | refuted | unknown)."""
+    """obligations: list of symexec.Obligation.  Returns list of Result (status: proved | refuted | unknown).
+    Memoisation: the verdict `unsat` of a query is a function of its SMT-LIB text; a query (generated from /repo's current
+    source in THIS run) whose exact text was already refuted-negation-proved by an earlier check of the same session is not
+    solved again (several properties share the contracts of the same functions).  Only `proved` is ever memoised."""
     ex = pool()
     obligations = [serialize(ob) for ob in obligations]
     futs = []
-    for ob in obligations:
+    hints = load_hints()
+    keys = [_cache_key(ob) for ob in obligations]
+    for ob, key in zip(obligations, keys):
+        if _cache_has(key):
+            futs.append(None)
+            continue
         tac = per_ob_tactic(ob) if per_ob_tactic else tactic
-        futs.append(ex.submit(_pipeline, ob, timeout_ms, tac, retry_ms, use_cvc5))
+        futs.append(ex.submit(_pipeline, ob, timeout_ms, tac, retry_ms, use_cvc5, hints.get(hint_key(ob))))
     results = []
-    for ob, fu in zip(obligations, futs):
-        status, backend, t, model, reason = fu.result()
-        results.append(Result(ob.name, status, backend, t, model, reason, ob))
+    for ob, fu, key in zip(obligations, futs, keys):
+        if fu is None:
+            results.append(Result(ob.name, "proved", "z3 (memoised identical query)", 0.0, None, "", ob, ""))
+            continue
+        status, backend, t, model, reason, stage = fu.result()
+        if status == "proved":
+            _cache_put(key)
+        results.append(Result(ob.name, status, backend, t, model, reason, ob, stage))
     # second phase: undecided obligations get a portfolio of long runs with other seeds (quantifier instantiation is
     # sensitive to the search order and to machine load; a proof, when it exists, is usually found quickly by some seed)
     und = [i for i, r in enumerate(results) if r.status == "unknown"]
@@ -429,7 +519,8 @@ def discharge(obligations, timeout_ms=20000, tactic=None, retry_ms=None, use_cvc
                 continue
             if r == "unsat" and results[i].status != "proved":
                 o = results[i]
-                results[i] = Result(o.name, "proved", "z3-retry", o.time + t, None, "", o.ob)
+                results[i] = Result(o.name, "proved", "z3-retry", o.time + t, None, "", o.ob, "")
+                _cache_put(keys[i])
     return results
 
 
